@@ -33,6 +33,7 @@ func checkC05(c *Ctx) {
 	c.checkIntersectionPairsAreGenerations("C05.3d-intersections-pair-generations")
 	c.checkNoticeOldSideIsSnapshot("C05.4e-notice-before-side-is-snapshot")
 	c.checkDeltaReturnsOnlyChunks()
+	c.checkParseAcsReadsWholeText()
 }
 
 func (c *Ctx) checkModeTables() {
